@@ -46,6 +46,22 @@ CLAIMS = {
              "(assumed lemma, probed natively), one opaque sub-expression in add_sheet, termination of the naming loop not proved. "
              "One genuine defect repaired (fix: commit, negative indices below -n). Trusted: " + TB,
         technique="contract-based deductive verification (quantified VCs over (len,at) lists + heap arrays, z3/cvc5) + bounded run-time-contract stand-in for reopen"),
+    "C11": dict(
+        category="proof", design="DESIGN.md section 7 C11",
+        text="Contract-based deductive proof on the real Table.cell, Table._validate_cell_coords, Table.iter_rows and Table.iter_cols "
+             "(document.py) over a symbolic rectangular grid of any size: cell(r,c) returns grid[r][c] and raises IndexError exactly "
+             "outside the table; cell(A1 text) reaches the same cell for every encoder output (all four $ forms) and, for ANY "
+             "string, either raises IndexError or returns the cell at an in-range decoded position; _validate_cell_coords (both "
+             "notations) raises IndexError iff the position is negative or beyond the limits and then changes nothing, else "
+             "returns (row, col, values) with the table grown to exactly max(old, needed) (loop invariants over add_row/add_column), "
+             "existing cells untouched; iter_rows/iter_cols yield exactly the addressed rectangle in order for None/0/any in-range "
+             "bounds and raise IndexError before yielding anything otherwise (generator as list, loop invariant). The A1 decoder's "
+             "acceptance language is re-proved here; every *args method reaches positions only through these two functions "
+             "(syntactic call-site obligation).",
+        note="Assumes: table invariant T-INV as precondition (rows not aliased), add_row()/add_column() through grid contracts "
+             "(to be proved under C03), xl_cell_to_rowcol functional correctness under C10, values_only=False. Three genuine defects "
+             "repaired by fix: commits ea88c8a, fd71a76. Trusted: " + TB,
+        technique="contract-based deductive verification (quantified VCs over a 2-D (nr, rl, at) grid encoding, generator-as-list, z3/cvc5); counter-models replayed on real tables"),
 }
 NA_REASON = "check not built yet (build in progress; see DESIGN.md section 7 for the plan)"
 
